@@ -201,8 +201,94 @@ func seqPart(w *vc.Writer, r *vc.Rand) {
 	}
 }
 
+// randomRace: a random sequence of contract changes, ResolveNow calls, gate closings / openings and pauses against a resolver
+// that polls only on request.  Oracle (the property's own words): a resolve-now request issued after the last change is
+// never lost - after quiescence the last delivered update is the final contract.  Versions only grow, so "equal to an
+// earlier one" cannot hide a loss.
+func randomRace(r *vc.Rand) (vc.Val, bool) {
+	srv := &vrefl.Server{V1: true, Alpha: true, FailStep: -1}
+	want := setContract(srv, 0)
+	watcher := &rec{}
+	gate := make(chan struct{}, 4000)
+	open := func() {
+		for len(gate) < 2000 {
+			gate <- struct{}{}
+		}
+	}
+	shut := func() {
+		for len(gate) > 0 {
+			select {
+			case <-gate:
+			default:
+			}
+		}
+	}
+	open()
+	srv.Gate = gate
+	rb := reflection.NewResolverBuilder(&vrefl.Pool{S: srv}, reflection.ResolverOpts{PollManually: true, ReqTimeout: 2 * time.Second})
+	res := rb.Build("t", watcher)
+	waitStreams(srv, 1)
+	time.Sleep(10 * time.Millisecond)
+	version := 0
+	requestedAfterChange := true
+	acts := ""
+	steps := 4 + r.Intn(9)
+	for i := 0; i < steps; i++ {
+		switch r.Intn(10) {
+		case 0, 1, 2:
+			version++
+			srv.Mu.Lock()
+			want = setContract(srv, []int{1, 2, 3, 4, 5, 6, 7}[version%7])
+			srv.Mu.Unlock()
+			requestedAfterChange = false
+			acts += "c"
+		case 3, 4, 5:
+			res.ResolveNow()
+			requestedAfterChange = true
+			acts += "r"
+		case 6:
+			shut()
+			acts += "s"
+		case 7:
+			open()
+			acts += "o"
+		default:
+			time.Sleep(time.Duration(r.Intn(3000)) * time.Microsecond)
+			acts += "p"
+		}
+	}
+	open()
+	// quiescence: no new stream for a while
+	last, stable := -1, 0
+	for stable < 8 {
+		time.Sleep(10 * time.Millisecond)
+		srv.Mu.Lock()
+		n := srv.Streams
+		srv.Mu.Unlock()
+		if n == last {
+			stable++
+		} else {
+			last, stable = n, 0
+		}
+	}
+	ok := true
+	if requestedAfterChange {
+		watcher.mu.Lock()
+		if len(watcher.cbs) == 0 || vc.Enc(watcher.cbs[len(watcher.cbs)-1]) != vc.Enc(vc.L{want}) {
+			ok = false
+		}
+		watcher.mu.Unlock()
+	}
+	res.Close()
+	return vc.L{2, acts}, ok
+}
+
 func racePart(w *vc.Writer, r *vc.Rand) {
 	n := vc.Scale(30, 1000)
+	for i := 0; i < vc.Scale(40, 1500); i++ {
+		in, ok := randomRace(r.Fork())
+		w.Case(in, vc.L{ok}, true)
+	}
 	for i := 0; i < n; i++ {
 		kind := i % 2
 		srv := &vrefl.Server{V1: true, Alpha: true, FailStep: -1}
